@@ -380,6 +380,93 @@ fn c18_case(data: &[u8], st: &mut Stats) -> PResult {
     }
 }
 
+/// Instructions executed by `dnsverif c18-instr <fam> <n>` under cachegrind (None: valgrind missing or failed).
+fn instr_of(fam: usize, n: usize) -> Option<(u64, usize, bool)> {
+    let exe = std::env::current_exe().ok()?;
+    let out = std::process::Command::new("valgrind")
+        .args(["--tool=cachegrind", "--cache-sim=no", "--cachegrind-out-file=/dev/null"])
+        .arg(exe)
+        .args(["c18-instr", &fam.to_string(), &n.to_string()])
+        .env_remove("VERIF_LOUD_PANICS")
+        .output()
+        .ok()?;
+    let so = String::from_utf8_lossy(&out.stdout).to_string();
+    let se = String::from_utf8_lossy(&out.stderr).to_string();
+    let len: usize = so.split("len=").nth(1)?.split_whitespace().next()?.parse().ok()?;
+    let ok = so.contains("accepted=true");
+    let line = se.lines().find(|l| l.contains("I") && l.contains("refs:"))?;
+    let digits: String = line.split("refs:").nth(1)?.chars().filter(|c| c.is_ascii_digit()).collect();
+    Some((digits.parse().ok()?, len, ok))
+}
+
+/// Hook-independent cross-check: the number of machine instructions the process executes (cachegrind,
+/// deterministic) must grow linearly with the size of each adversarial family, so a loop that was
+/// added without a step hook is seen as well. Slope between the two larger sizes <= 1.5 x slope
+/// between the two smaller sizes + 50 instructions/byte (linear growth gives 1, quadratic 2).
+fn instruction_count_part(rep: &mut Report, ctx: &Ctx, ks: &[String]) {
+    let have = std::process::Command::new("valgrind").arg("--version").output().map(|o| o.status.success()).unwrap_or(false);
+    if !have || std::env::var_os("VERIF_NO_VALGRIND").is_some() {
+        rep.stats.class("instruction-count:skipped(no valgrind)");
+        return;
+    }
+    let mut triples: Vec<[usize; 3]> = vec![[15_000, 30_000, 60_000]];
+    if ctx.tier == Tier::Thorough {
+        triples.push([50_000, 100_000, 200_000]);
+        triples.push([4_000, 8_000, 16_000]);
+    }
+    let jobs: Vec<(usize, usize)> = (0..NFAM).flat_map(|f| triples.iter().flat_map(move |t| t.iter().map(move |&n| (f, n)))).collect();
+    let results: std::sync::Mutex<std::collections::BTreeMap<(usize, usize), Option<(u64, usize, bool)>>> = std::sync::Mutex::new(Default::default());
+    let next = std::sync::atomic::AtomicUsize::new(0);
+    std::thread::scope(|s| {
+        for _ in 0..ctx.threads.max(1) {
+            s.spawn(|| loop {
+                let i = next.fetch_add(1, std::sync::atomic::Ordering::SeqCst);
+                if i >= jobs.len() {
+                    break;
+                }
+                let (f, n) = jobs[i];
+                let r = instr_of(f, n);
+                results.lock().unwrap().insert((f, n), r);
+            });
+        }
+    });
+    let results = results.into_inner().unwrap();
+    let mut table = vec![];
+    for fam in 0..NFAM {
+        for t in &triples {
+            let m: Vec<Option<(u64, usize, bool)>> = t.iter().map(|&n| results.get(&(fam, n)).cloned().flatten()).collect();
+            let (a, b, c) = match (m[0], m[1], m[2]) {
+                (Some(a), Some(b), Some(c)) => (a, b, c),
+                _ => {
+                    rep.stats.class("instruction-count:measurement-failed");
+                    continue;
+                }
+            };
+            let name = family(fam, t[0]).1;
+            // families whose length stops growing (count caps) are not judged at that triple
+            if b.1 < a.1 + a.1 / 2 || c.1 < b.1 + b.1 / 2 {
+                rep.stats.class("instruction-count:family-capped");
+                continue;
+            }
+            let s1 = (b.0 as f64 - a.0 as f64) / (b.1 - a.1) as f64;
+            let s2 = (c.0 as f64 - b.0 as f64) / (c.1 - b.1) as f64;
+            table.push(json!({"family": name, "lens": [a.1, b.1, c.1], "instructions": [a.0, b.0, c.0], "instr_per_byte": [(s1 * 10.0).round() / 10.0, (s2 * 10.0).round() / 10.0]}));
+            rep.stats.class("instruction-count:measured");
+            rep.stats.evals += 3;
+            let r: PResult = if s2 <= 1.5 * s1.max(0.0) + 50.0 {
+                Ok(())
+            } else {
+                Err(Failure::new(
+                    "C18 instruction-count-super-linear",
+                    format!("family {} ({}): {} / {} / {} instructions at {} / {} / {} bytes: {:.1} then {:.1} instructions per additional byte (cachegrind; replay: valgrind --tool=cachegrind --cache-sim=no dnsverif c18-instr {} <size>)", fam, name, a.0, b.0, c.0, a.1, b.1, c.1, s1, s2, fam),
+                ))
+            };
+            rep.direct(&format!("instruction count family {}", fam), Ok(r), ks);
+        }
+    }
+    rep.extra.insert("instruction_count_table".into(), json!(table));
+}
+
 pub fn replay_c18(data: &[u8]) -> PResult {
     c18_case(data, &mut Stats::default())
 }
@@ -387,7 +474,7 @@ pub fn replay_c18(data: &[u8]) -> PResult {
 pub fn check_c18(ctx: &Ctx, known: &KnownFindings) -> Report {
     let mut rep = Report::new("C18");
     let ks = known_sigs(known, "C18");
-    rep.rule = format!("step counter (verif_hooks: one step per label/pointer followed, per record, per question, per EDNS option) across DNSSector::parse. Deterministic part: 12 adversarial families (16-pointer chains into a 255-byte name as owner / NS / SOA / MX names, maximal literal names, dense empty options with one code and with pairwise different codes, 11-byte records of pairwise different types, pairwise different literal owners, three rejected ladder/huge-name shapes) at sizes 64 .. 65535 .. 200000 (thorough: .. 1 MB), each accepted by the parser. Generated part: the C01 input stream and the families at drawn sizes with 1-3 damaged bytes. Oracle: steps <= {}*len + {} for every input, and per family ratio(len ~65535) <= 1.25*ratio(len ~4096) + 1 (no super-linear growth). Non-trivial: the parser executes >= len steps; distinct = hash of input.", SLOPE, CONST);
+    rep.rule = format!("step counter (verif_hooks: one step per label/pointer followed, per record, per question, per EDNS option) across DNSSector::parse. Deterministic part: 12 adversarial families (16-pointer chains into a 255-byte name as owner / NS / SOA / MX names, maximal literal names, dense empty options with one code and with pairwise different codes, 11-byte records of pairwise different types, pairwise different literal owners, three rejected ladder/huge-name shapes) at sizes 64 .. 65535 .. 200000 (thorough: .. 1 MB), each accepted by the parser. Generated part: the C01 input stream and the families at drawn sizes with 1-3 damaged bytes. Oracle: steps <= {}*len + {} for every input, and per family ratio(len ~65535) <= 1.25*ratio(len ~4096) + 1 (no super-linear growth). Cross-check without the hook: machine instructions of a process that builds and parses each family (cachegrind, --cache-sim=no) at 15000/30000/60000 bytes (thorough: also 4000/8000/16000 and 50000/100000/200000): instructions per additional byte between the two larger sizes <= 1.5 x that between the two smaller sizes + 50. Non-trivial: the parser executes >= len steps; distinct = hash of input.", SLOPE, CONST);
     rep.assumptions = vec![
         "the counter measures the instrumented validator loops only (name walkers, option loop, per-record/per-question entry); an un-instrumented new loop would be invisible here".into(),
         "constant 32 derives from the policy: <= 16 pointers + <= 128 labels per name walk, densest legal packing two chained names per 14-byte NS record (~20.7 steps/byte)".into(),
@@ -438,6 +525,7 @@ pub fn check_c18(ctx: &Ctx, known: &KnownFindings) -> Report {
         }
     }
     rep.extra.insert("family_table".into(), json!(table));
+    instruction_count_part(&mut rep, ctx, &ks);
     let prop = (1200usize, c18_case);
     let r = drive(&prop, ctx.cases(150_000, 3_000_000), ctx, 18, &ks);
     rep.absorb(r);
